@@ -13,5 +13,11 @@ let () = iter_lines (fun line ->
        | Some p ->
            let base = normpath (base_dir d) in
            "ok " ^ csv_of_nlist p ^ " " ^ b (inside base (normpath p)))
+  | "sdm" :: path :: exports ->
+      (* exports: key=directory pairs; result: the isfile candidates in order *)
+      let es = List.map (fun kv -> match String.split_on_char '=' kv with
+                                   | [k; v] -> (nlist_of_csv k, nlist_of_csv v) | _ -> failwith "export") exports in
+      let cs = shared_candidates es (nlist_of_csv path) in
+      if cs = [] then "none" else String.concat "|" (List.map csv_of_nlist cs)
   | ["sf"; s] -> csv_of_nlist (secure_core (nlist_of_csv s))
   | _ -> "bad-command")
